@@ -64,6 +64,16 @@ P = {
          "Seeded histories of valid batches with undo points, undo, stale-list submissions, syncs and repeated undo down to the last sync on in-memory and SQLite replicas; after each step tasks, the unsynced list and the counters are compared with the harness' model state at the undo point, stale lists must be refused without change, synchronized changes must not be undoable, and the operations later sent to the server must be exactly the surviving ones.",
          "Valid sequences only (the property says so). An undo span holding only an undo point may report false.",
          "DESIGN.md §5 C07"),
+ "C09": (True, "E2-schedule", "exploration",
+         "runtime monitor under a deterministic scheduler at single object-store-request / list-page granularity + offline history checker over client call/return events and the store's request log",
+         "Adders with retry, chain-walking readers and snapshot writers run against the real CloudServer over the hook's in-memory object store; every get/put/del/compare-and-swap and every list page is a scheduling point. Two adders (and adder + snapshot writer) are enumerated exhaustively, two adders + reader by budgeted DFS, 3-4 clients by seeded random schedules. The checker asserts: at most one accepted child per parent, every accepted version on the final chain with its bytes, nothing off-chain ever served, rejections name a version that was latest during the call, 'latest' is the chain tail.",
+         "In-memory Service (atomic requests, pages read from current contents); AWS/GCP adapters' own compare-and-swap is out of reach offline. Cleanup draw pinned to 255 here (C10 owns cleanup).",
+         "DESIGN.md §5 C09"),
+ "C10": (True, "E2-schedule", "exploration",
+         "runtime monitor under the request-level scheduler with fault (stop-after-deletion) injection + deletion audit, retrieval walk and real-replica reconstruction oracles",
+         "Cleanup (explicit, or arising naturally from two racing adders) is interleaved at single-request and list-page granularity with add_version / add_snapshot / a second cleanup over layouts of 0-12 versions with snapshots, ages around the retention threshold and stray objects, and is stopped after every possible number of deletions. After each schedule: every deletion must fall in a permitted class, the chain from the newest retained on-chain snapshot (or nil) to latest must be retrievable byte-for-byte, retained versions must form an unbroken suffix, a real fresh replica must reconstruct the state, and add_version(latest) must still be accepted.",
+         "In-memory Service with controllable creation clock. Removing a newer snapshot in favour of an older retained on-chain one is recorded, not alarmed.",
+         "DESIGN.md §5 C10"),
  "C15": (True, "E1-history", "exploration",
          "runtime monitor: working-set specification model over exhaustive small prior working sets and random histories",
          "A specification model written from the statement judges every rebuild (explicit in both modes, implicit after sync and after undo) and every commit: exhaustive over prior working sets of length <=4 x slot kinds {pending, completed, purged, gap} x newcomers x modes (SQLite sampled in quick), plus random histories over all statuses, purges, expiry and incoming syncs.",
